@@ -50,7 +50,10 @@ fn parse(
         ));
     }
 
-    let version: i32 = tok.read_number().unwrap().as_integer().unwrap();
+    let version: i32 = tok
+        .read_number()?
+        .as_integer()
+        .ok_or_else(|| StoryError::BadJson("Malformed JSON: expected an integer.".to_owned()))?;
 
     if version > INK_VERSION_CURRENT {
         return Err(StoryError::BadJson(
@@ -129,10 +132,14 @@ fn jtoken_to_runtime_object(
         JsonValue::Boolean(value) => Ok(ArrayElement::RTObject(Rc::new(Value::new::<bool>(value)))),
         JsonValue::Number(value) => {
             if value.is_integer() {
-                let val: i32 = value.as_integer().unwrap();
+                let val: i32 = value.as_integer().ok_or_else(|| {
+                    StoryError::BadJson("Malformed JSON: expected an integer.".to_owned())
+                })?;
                 Ok(ArrayElement::RTObject(Rc::new(Value::new::<i32>(val))))
             } else {
-                let val: f32 = value.as_float().unwrap();
+                let val: f32 = value.as_float().ok_or_else(|| {
+                    StoryError::BadJson("Malformed JSON: expected a number.".to_owned())
+                })?;
                 Ok(ArrayElement::RTObject(Rc::new(Value::new::<f32>(val))))
             }
         }
@@ -140,7 +147,9 @@ fn jtoken_to_runtime_object(
             let str = value.as_str();
 
             // String value
-            let first_char = str.chars().next().unwrap();
+            let first_char = str.chars().next().ok_or_else(|| {
+                StoryError::BadJson("Malformed JSON: expected a non-empty token.".to_owned())
+            })?;
             if first_char == '^' {
                 return Ok(ArrayElement::RTObject(Rc::new(Value::new::<&str>(
                     &str[1..],
@@ -195,13 +204,17 @@ fn jtoken_to_runtime_object(
 
             // // VariablePointerValue
             if prop == "^var" {
-                let variable_name = prop_value.as_str().unwrap();
+                let variable_name = prop_value.as_str().ok_or_else(|| {
+                    StoryError::BadJson("Malformed JSON: expected a string.".to_owned())
+                })?;
                 let mut contex_index = -1;
 
                 if tok.peek()? == ',' {
                     tok.expect(',')?;
                     tok.expect_obj_key("ci")?;
-                    contex_index = tok.read_number().unwrap().as_integer().unwrap();
+                    contex_index = tok.read_number()?.as_integer().ok_or_else(|| {
+                        StoryError::BadJson("Malformed JSON: expected an integer.".to_owned())
+                    })?;
                 }
 
                 let var_ptr = Rc::new(Value::new_variable_pointer(variable_name, contex_index));
@@ -233,7 +246,12 @@ fn jtoken_to_runtime_object(
             }
 
             if is_divert {
-                let target = prop_value.as_str().unwrap().to_string();
+                let target = prop_value
+                    .as_str()
+                    .ok_or_else(|| {
+                        StoryError::BadJson("Malformed JSON: expected a string.".to_owned())
+                    })?
+                    .to_string();
 
                 let mut var_divert_name: Option<String> = None;
                 let mut target_path: Option<String> = None;
@@ -252,7 +270,9 @@ fn jtoken_to_runtime_object(
                     } else if prop == "c" {
                         conditional = true;
                     } else if prop == "exArgs" {
-                        external_args = prop_value.as_integer().unwrap() as usize;
+                        external_args = prop_value.as_integer().ok_or_else(|| {
+                            StoryError::BadJson("Malformed JSON: expected an integer.".to_owned())
+                        })? as usize;
                     }
                 }
 
@@ -275,12 +295,16 @@ fn jtoken_to_runtime_object(
             // Choice
             if prop == "*" {
                 let mut flags = 0;
-                let path_string_on_choice = prop_value.as_str().unwrap();
+                let path_string_on_choice = prop_value.as_str().ok_or_else(|| {
+                    StoryError::BadJson("Malformed JSON: expected a string.".to_owned())
+                })?;
 
                 if tok.peek()? == ',' {
                     tok.expect(',')?;
                     tok.expect_obj_key("flg")?;
-                    flags = tok.read_number().unwrap().as_integer().unwrap();
+                    flags = tok.read_number()?.as_integer().ok_or_else(|| {
+                        StoryError::BadJson("Malformed JSON: expected an integer.".to_owned())
+                    })?;
                 }
 
                 tok.expect('}')?;
@@ -294,14 +318,18 @@ fn jtoken_to_runtime_object(
             if prop == "VAR?" {
                 tok.expect('}')?;
                 return Ok(ArrayElement::RTObject(Rc::new(VariableReference::new(
-                    prop_value.as_str().unwrap(),
+                    prop_value.as_str().ok_or_else(|| {
+                        StoryError::BadJson("Malformed JSON: expected a string.".to_owned())
+                    })?,
                 ))));
             }
 
             if prop == "CNT?" {
                 tok.expect('}')?;
                 return Ok(ArrayElement::RTObject(Rc::new(
-                    VariableReference::from_path_for_count(prop_value.as_str().unwrap()),
+                    VariableReference::from_path_for_count(prop_value.as_str().ok_or_else(
+                        || StoryError::BadJson("Malformed JSON: expected a string.".to_owned()),
+                    )?),
                 )));
             }
 
@@ -318,7 +346,9 @@ fn jtoken_to_runtime_object(
             }
 
             if is_var_ass {
-                let var_name = prop_value.as_str().unwrap();
+                let var_name = prop_value.as_str().ok_or_else(|| {
+                    StoryError::BadJson("Malformed JSON: expected a string.".to_owned())
+                })?;
                 let mut is_new_decl = true;
 
                 if tok.peek()? == ',' {
@@ -341,7 +371,9 @@ fn jtoken_to_runtime_object(
             if prop == "#" {
                 tok.expect('}')?;
                 return Ok(ArrayElement::RTObject(Rc::new(Tag::new(
-                    prop_value.as_str().unwrap(),
+                    prop_value.as_str().ok_or_else(|| {
+                        StoryError::BadJson("Malformed JSON: expected a string.".to_owned())
+                    })?,
                 ))));
             }
 
@@ -399,9 +431,17 @@ fn jtoken_to_runtime_object(
 
             loop {
                 if p == "#f" {
-                    flags = pv.as_integer().unwrap();
+                    flags = pv.as_integer().ok_or_else(|| {
+                        StoryError::BadJson("Malformed JSON: expected an integer.".to_owned())
+                    })?;
                 } else if p == "#n" {
-                    name = Some(pv.as_str().unwrap().to_string());
+                    name = Some(
+                        pv.as_str()
+                            .ok_or_else(|| {
+                                StoryError::BadJson("Malformed JSON: expected a string.".to_owned())
+                            })?
+                            .to_string(),
+                    );
                 } else {
                     let named_content_item = jtoken_to_runtime_object(tok, pv, Some(p.clone()))?;
 
@@ -417,7 +457,9 @@ fn jtoken_to_runtime_object(
                     let named_sub_container = named_content_item
                         .into_any()
                         .downcast::<Container>()
-                        .unwrap();
+                        .map_err(|_| {
+                            StoryError::BadJson("Named content is not a container".to_owned())
+                        })?;
 
                     named_only_content.insert(p, named_sub_container);
                 }
@@ -447,7 +489,9 @@ fn parse_list(tok: &mut JsonTokenizer) -> Result<HashMap<String, i32>, StoryErro
 
     while tok.peek()? != '}' {
         let key = tok.read_obj_key()?;
-        let value = tok.read_number().unwrap().as_integer().unwrap();
+        let value = tok.read_number()?.as_integer().ok_or_else(|| {
+            StoryError::BadJson("Malformed JSON: expected an integer.".to_owned())
+        })?;
         list_content.insert(key, value);
 
         if tok.peek()? != '}' {
